@@ -63,8 +63,7 @@ class TravelCalculator:
         """Update known position of cover."""
         self._last_known_position = position
         self._last_known_position_timestamp = time.time()
-        if position == self._travel_to_position:
-            self._position_confirmed = True
+        self._position_confirmed = position == self._travel_to_position
 
     def stop(self) -> None:
         """Stop traveling."""
